@@ -1,0 +1,21 @@
+//go:build verif
+
+// Copyright 2026 The Scriggo Authors. All rights reserved.
+// Use of this source code is governed by a BSD-style
+// license that can be found in the LICENSE file.
+
+package compiler
+
+import "github.com/open2b/scriggo/ast"
+
+// Verification hook for property C06 (autoescaping confines every shown
+// untrusted value to its syntactic slot). Compiled only with the "verif"
+// build tag. Add-only: it calls the real lexer and parser.
+
+// VerifC06ParseTemplateSource parses src in the given format with the real
+// ParseTemplateSource and returns the tree, whose show statements carry the
+// context decided by the lexer.
+func VerifC06ParseTemplateSource(src []byte, format ast.Format) (*ast.Tree, error) {
+	tree, _, err := ParseTemplateSource(src, format, false, false)
+	return tree, err
+}
